@@ -36,6 +36,29 @@ impl Rng {
     }
 }
 
+/// store configuration variant used by every family when it builds a store (C12: tuning knobs)
+#[derive(Clone, Copy, Debug)]
+pub struct CfgVariant {
+    pub milestone: usize,
+    pub shrink: bool,
+}
+static CFG: std::sync::Mutex<Option<CfgVariant>> = std::sync::Mutex::new(None);
+pub fn set_cfg(v: Option<CfgVariant>) {
+    *CFG.lock().unwrap() = v;
+}
+pub fn cfg_variant() -> Option<CfgVariant> {
+    *CFG.lock().unwrap()
+}
+/// a fresh store under the current configuration variant (library default when none is set)
+pub fn new_store() -> stam::AnnotationStore {
+    match cfg_variant() {
+        None => stam::AnnotationStore::default(),
+        Some(v) => stam::AnnotationStore::new(
+            stam::Config::default().with_milestone_interval(v.milestone).with_shrink_to_fit(v.shrink),
+        ),
+    }
+}
+
 pub struct Opts {
     pub tier: String,
     pub seed: u64,
@@ -81,6 +104,8 @@ pub struct Report {
     pub model_lines: u64,
     pub exhaustive: bool,
     pub extra: BTreeMap<String, Value>,
+    /// hash over every implementation answer, in order (compared across configuration variants)
+    pub digest: u64,
 }
 
 pub fn fnv(s: &str) -> u64 {
@@ -106,6 +131,7 @@ impl Report {
             model_lines: 0,
             exhaustive: false,
             extra: BTreeMap::new(),
+            digest: 0xcbf29ce484222325,
         }
     }
     pub fn count(&mut self, key: &str) {
@@ -164,6 +190,9 @@ impl Report {
     pub fn model_case(&mut self, lines: Vec<String>, impl_out: Vec<String>, sig_hint: &str) {
         assert_eq!(lines.len(), impl_out.len());
         self.model_lines += lines.len() as u64;
+        for o in &impl_out {
+            self.digest = (self.digest ^ fnv(o)).wrapping_mul(0x100000001b3);
+        }
         self.model_cases.push(ModelCase {
             lines,
             impl_out,
@@ -234,6 +263,7 @@ impl Report {
             "samples": self.samples,
             "model_lines_compared": self.model_lines,
             "exhaustive": self.exhaustive,
+            "digest": format!("{:016x}", self.digest),
             "extra": self.extra,
             "failures": self.failures.iter().map(|f| json!({
                 "kind": f.kind, "signature": f.signature, "case": f.case,
